@@ -448,6 +448,99 @@ def responder_send(text, where, aw):
     if re.search(r'if let Err\((\w+)\)=' + call + r'\{log::(error|warn)!\([^;{}]*\);\}', body): return 'log'
     refuse(W, "treatment of the result of send_to not recognised")
 
+# ------------------------------------------------------------------ simple-mdns: the record store
+def store_add(text):
+    W = 'simple-mdns/src/resource_record_manager.rs: add_authoritative_resource / add_cached_resource / remove_resource_record / clear'
+    impl = block_after(text, r"impl<'a>ResourceRecordManager<'a>\{", W)
+    kind = lambda k: rf'ResourceRecordType::{k}'
+    ins = lambda v, k: rf'{v}\.insert\(resource,{k}\);'
+    fresh = lambda k: r'None=>\{let mut (?P<n>\w+)=HashMap::new\(\);' + ins('(?P=n)', k) + r'self\.resources\.insert\(key,(?P=n)\);\}'
+    b = fn_body(impl, 'add_authoritative_resource', W)
+    if not re.match(r'let key=get_key\(&resource\.name\);match self\.resources\.get_mut\(&key\)\{Some\((?P<v>\w+)\)=>\{' + ins('(?P=v)', kind('Authoritative')) + r'\}' + fresh(kind('Authoritative')) + r'\}$', b):
+        refuse(W, f"add_authoritative_resource: {b[:200]}")
+    b = fn_body(impl, 'add_cached_resource', W)
+    c = kind(r'Cached\(exp_info\)')
+    m = re.match(r'let key=get_key\(&resource\.name\);let ttl=if resource\.cache_flush\{(\d+)\}else\{resource\.ttl\};let exp_info=ExpirationInfo::new\(ttl\);'
+                 r'match self\.resources\.get_mut\(&key\)\{Some\((?P<v>\w+)\)=>\{(?P<some>.*)\}' + fresh(c) + r'\}$', b)
+    if not m: refuse(W, f"add_cached_resource: {b[:300]}")
+    some = m.group('some'); v = m.group('v')
+    if re.fullmatch(ins(v, c), some): guard = 'always'
+    elif re.fullmatch(rf'if!matches!\({v}\.get\(&resource\),Some\({kind("Authoritative")}\)\)\{{' + ins(v, c) + r'\}', some): guard = 'unless-authoritative'
+    else: refuse(W, f"add_cached_resource: the arm for a known name is not recognised: {some[:200]}")
+    b = fn_body(impl, 'remove_resource_record', W)
+    if not re.match(r'let key=get_key\(&resource_record\.name\);self\.resources\.get_mut\(&key\)\.map\(\|(\w+)\|\1\.remove\(resource_record\)\);$', b):
+        refuse(W, f"remove_resource_record: {b[:200]}")
+    b = fn_body(impl, 'clear', W)
+    if b != 'self.resources=Trie::new();': refuse(W, f"clear: {b[:100]}")
+    k = block_after(text, r'\bfn get_key\(name:&Name\)->Vec<u8>', W)
+    if not re.match(r'name\.get_labels\(\)\.iter\(\)\.rev\(\)\.flat_map\(\|(\w+)\|\{std::iter::once\(\1\.len\(\)as u8\)\.chain\(\1\.as_bytes\(\)\.iter\(\)\.copied\(\)\)\}\)\.collect\(\)$', k):
+        refuse(W, f"get_key: {k[:200]}")
+    return {'flushTtl': int(m.group(1)), 'guard': guard, 'key': 'root-first-length-prefixed'}
+
+def store_filter(text):
+    W = 'simple-mdns/src/resource_record_manager.rs: DomainResourceFilter / should_refresh / get_next_refresh'
+    impl = block_after(text, r'impl DomainResourceFilter\{', W)
+    ctors = {}
+    for name, params in (('authoritative', r'include_subdomains:bool'), ('cached', ''), ('all', '')):
+        b = block_after(impl, rf'\bfn {name}\({params}\)->Self', W)
+        m = re.match(r'Self\{((?:\w+:\w+,?)+)\}$', b)
+        if not m: refuse(W, f"{name}: {b[:120]}")
+        f = dict(x.split(':') for x in m.group(1).strip(',').split(','))
+        if set(f) != {'subdomain', 'authoritative', 'cached'}: refuse(W, f"{name}: fields {sorted(f)}")
+        vals = []
+        for k in ('subdomain', 'authoritative', 'cached'):
+            v = f[k]
+            if v == 'include_subdomains' and name == 'authoritative': v = 'param'
+            if v not in ('true', 'false', 'param'): refuse(W, f"{name}: value of {k} not recognised: {v}")
+            vals.append(v)
+        ctors[name] = vals
+    b = fn_body(impl, 'match_filter', W)
+    m = re.match(r'match resource_type\{ResourceRecordType::Authoritative=>self\.(\w+),ResourceRecordType::Cached\(exp_info\)=>\{self\.(\w+)&&exp_info\.(\w+)(>=|>|<=|<)Instant::now\(\)\}\}$', b)
+    if not m: refuse(W, f"match_filter: {b[:200]}")
+    mf = [m.group(1), m.group(2), m.group(3), m.group(4)]
+    rt = block_after(text, r'impl ResourceRecordType\{', W)
+    b = fn_body(rt, 'should_refresh', W)
+    m = re.match(r'match self\{ResourceRecordType::Authoritative=>(true|false),ResourceRecordType::Cached\(exp_info\)=>exp_info\.(\w+)(>=|>|<=|<)Instant::now\(\),?\}$', b)
+    if not m: refuse(W, f"should_refresh: {b[:200]}")
+    sr = [m.group(1), m.group(2), m.group(3)]
+    mgr = block_after(text, r"impl<'a>ResourceRecordManager<'a>\{", W)
+    b = fn_body(mgr, 'get_next_refresh', W)
+    m = re.match(r'self\.resources\.iter\(\)\.flat_map\(\|\(_,(\w+)\)\|\{\1\.values\(\)\.filter_map\(\|(\w+)\|\{if!\2\.should_refresh\(\)\{return None;\}match \2\{ResourceRecordType::Authoritative=>None,ResourceRecordType::Cached\(exp_info\)=>Some\(exp_info\.(\w+)\),?\}\}\)\}\)\.(min_by\(\|a,b\|a\.cmp\(b\)\)|min\(\))$', b)
+    if not m: refuse(W, f"get_next_refresh: {b[:300]}")
+    return {'ctors': ctors, 'matchFilter': mf, 'shouldRefresh': sr, 'nextRefresh': [m.group(3), 'min']}
+
+def store_lookup(text):
+    W = 'simple-mdns/src/resource_record_manager.rs: get_domain_resources'
+    mgr = block_after(text, r"impl<'a>ResourceRecordManager<'a>\{", W)
+    b = block_after(mgr, r"\bfn get_domain_resources<'b>\(&'a self,name:&'b Name,filter:DomainResourceFilter,?\)->impl Iterator<Item=impl Iterator<Item=&'a ResourceRecord<'a>>>", W)
+    m = re.match(r"let key=get_key\(name\);let (?P<f>\w+)=\|resource_pair:\(&'a ResourceRecord,&'a ResourceRecordType,?\)\|->Option<&ResourceRecord>\{let\(resource,resource_type\)=resource_pair;"
+                 r"if filter\.match_filter\(resource_type\)\{Some\(resource\)\}else\{None\}\};let mut found:Vec<Vec<&'a ResourceRecord>>=Vec::new\(\);"
+                 r"if filter\.subdomain\{if let Some\(trie\)=self\.resources\.subtrie\(&key\)\{found=trie\.iter\(\)\.map\(\|\(_\w*,(?P<r>\w+)\)\|\{(?P=r)\.iter\(\)\.filter_map\((?P=f)\)\.collect\(\)\}\)\.collect\(\);\};\}"
+                 r"else if let Some\((?P<r2>\w+)\)=self\.resources\.get\(&key\)\{found=vec!\[(?P=r2)\.iter\(\)\.filter_map\((?P=f)\)\.collect\(\)\]\}"
+                 r"found\.into_iter\(\)\.filter\(\|(?P<g>\w+)\|!(?P=g)\.is_empty\(\)\)\.map\(\|inner\|inner\.into_iter\(\)\)$", b)
+    if not m: refuse(W, f"body not recognised: {b[:300]}")
+    return ['subtrie-when-subdomain', 'get-otherwise', 'drop-empty-groups']
+
+# ------------------------------------------------------------------ simple-mdns: build_reply
+def build_reply(text):
+    W = 'simple-mdns/src/lib.rs: build_reply'
+    b = block_after(text, r"\bfn build_reply<'b>\(", W)
+    m = re.match(r'let mut reply_packet=Packet::new_reply\(packet\.id\(\)\);let mut unicast_response=false;let mut additional_records=HashSet::new\(\);'
+                 r'for question in packet\.questions\.iter\(\)\{if question\.unicast_response\{unicast_response=(?:question\.unicast_response|true);?\}'
+                 r'for d_resources in resources\.get_domain_resources\(&question\.qname,DomainResourceFilter::authoritative\((true|false)\),?\)\{'
+                 r'for answer in d_resources\.filter\(\|r\|(?P<ans>[^|{}]*)\)\{reply_packet\.answers\.push\(answer\.clone\(\)\);'
+                 r'if let RData::SRV\(srv\)=&answer\.rdata\{let target=resources\.get_domain_resources\(&srv\.target,DomainResourceFilter::authoritative\((true|false)\),?\)'
+                 r'\.flatten\(\)\.filter\(\|r\|\{(?P<add>[^{}]*)\}\)\.cloned\(\);additional_records\.extend\(target\);\}\}\}\}'
+                 r'for additional_record in additional_records\{reply_packet\.additional_records\.push\(additional_record\);\}'
+                 r'if!reply_packet\.answers\.is_empty\(\)\{Some\(\(reply_packet,unicast_response\)\)\}else\{None\}$', b)
+    if not m: refuse(W, f"body not recognised: {b[:400]}")
+    ans = sorted(m.group('ans').split('&&'))
+    if ans != ['r.match_qclass(question.qclass)', 'r.match_qtype(question.qtype)']: refuse(W, f"answer filter not recognised: {m.group('ans')}")
+    a = re.match(r'\(((?:r\.match_qtype\(TYPE::\w+\.into\(\)\)(?:\|\|)?)+)\)&&r\.match_qclass\(question\.qclass\)$', m.group('add'))
+    if not a: refuse(W, f"additional-record filter not recognised: {m.group('add')}")
+    types = re.findall(r'TYPE::(\w+)', a.group(1))
+    return {'answerSub': m.group(1), 'targetSub': m.group(3), 'types': types}
+
 # ------------------------------------------------------------------ name.rs: the relations between names
 def name_relations(text):
     W = 'name.rs: is_link_local / is_subdomain_of / without'
@@ -584,6 +677,12 @@ def generate(repo):
     dp = attempt('rdata.parse', need('m', rdata_parse))
     pp = attempt('packet.parse', need('p', packet_parse))
     pw = attempt('packet.write', need('p', packet_write))
+    files['mlib'] = read_keep('simple-mdns/src/lib.rs')
+    files['x'] = read_keep('simple-mdns/src/resource_record_manager.rs')
+    sa = attempt('mdns.store_add', need('x', store_add))
+    sf = attempt('mdns.store_filter', need('x', store_filter))
+    sl = attempt('mdns.store_lookup', need('x', store_lookup))
+    br = attempt('mdns.build_reply', need('mlib', build_reply))
     files['modrs'] = read('simple-dns/src/dns/mod.rs')
     qo = attempt('codes.question_codes_out', need('modrs', qcodes_out))
     mw = attempt('packet.message_writer', need('p', message_writer))
@@ -684,6 +783,21 @@ def generate(repo):
           "/-- `MessageWriter` (the writer `write_compressed_to` wraps its output in): `write` and `flush` forward to the inner writer,",
           "`seek(Start(o))` goes to start + o and every seek answers relative to start -/",
           "def messageWriter : Option (List String) := " + ('none' if mw is None else f"some {strs(mw)}"),
+          "/-- the record store of simple-mdns: the lifetime given to a cache-flush record, what `add_cached_resource` does for a record it already holds as authoritative, the key -/",
+          "def storeFlushTtl : Option Nat := " + optn(g(sa, 'flushTtl')),
+          "def storeCachedGuard : Option String := " + ('none' if sa is None else 'some ' + q(sa['guard'])),
+          "def storeKeyShape : Option String := " + ('none' if sa is None else 'some ' + q(sa['key'])),
+          "/-- `DomainResourceFilter::{authoritative, cached, all}` as (subdomain, authoritative, cached), `param` = the argument; `match_filter`: the field consulted for an authoritative record, for a cached one, the instant compared and how; `should_refresh`; `get_next_refresh` -/",
+          "def storeFilterCtors : Option (List (String × List String)) := " + ('none' if sf is None else 'some [' + ', '.join(f'({q(k)}, {strs(v)})' for k, v in sf['ctors'].items()) + ']'),
+          "def storeMatchFilter : Option (List String) := " + ('none' if sf is None else 'some ' + strs(sf['matchFilter'])),
+          "def storeShouldRefresh : Option (List String) := " + ('none' if sf is None else 'some ' + strs(sf['shouldRefresh'])),
+          "def storeNextRefresh : Option (List String) := " + ('none' if sf is None else 'some ' + strs(sf['nextRefresh'])),
+          "/-- `get_domain_resources` -/",
+          "def storeLookup : Option (List String) := " + ('none' if sl is None else 'some ' + strs(sl)),
+          "/-- `build_reply`: whether answers / SRV targets are looked up with subdomains, and the types of the additional records -/",
+          "def replyAnswerSub : Option String := " + ('none' if br is None else 'some ' + q(br['answerSub'])),
+          "def replyTargetSub : Option String := " + ('none' if br is None else 'some ' + q(br['targetSub'])),
+          "def replyAdditionalTypes : Option (List String) := " + ('none' if br is None else 'some ' + strs(br['types'])),
           "/-- `From<QTYPE> for u16` and `From<QCLASS> for u16` (the codes the writers emit): (variant, code; `none` for the arm that converts the wrapped TYPE / CLASS) -/",
           "def qtypeToCode : Option (List (String × Option Nat)) := " + ('none' if qo is None else 'some [' + ', '.join(f'({q(a)}, {"none" if b == "inner" else "some " + b})' for a, b in qo['QTYPE']) + ']'),
           "def qclassToCode : Option (List (String × Option Nat)) := " + ('none' if qo is None else 'some [' + ', '.join(f'({q(a)}, {"none" if b == "inner" else "some " + b})' for a, b in qo['QCLASS']) + ']'),
